@@ -174,6 +174,7 @@ def _(self, value: Nat):
     use(pow2_mono(blen(value), 8 * need8(value)))
     assigns(self)
     ensures(self.number_of_bits > old(self.number_of_bits))
+    ensures((self.number_of_bits - old(self.number_of_bits)) % 8 == 0)
 
 
 @contract("Encoder.append_length_determinant", props=["C06", "C01"])
